@@ -8,6 +8,11 @@ port <pid> <b|i|n> <interval> <retention>         declare a port (last read valu
 interval <pid> <n>                                set history_interval
 retention <pid> <n>                               set history_retention
 tick <now>                                        one janitor_task + one sampling_task iteration
+gbegin <b|a> get <level> <pid> <now> <from> <to> <limit> <timestamps>   start a by-timestamp request and suspend it in its
+gbegin <b|a> hbyts <pid> <now> <t,t,…|->          persistence query: `b` = before the query executes, `a` = after (reply
+dbegin <b|a> del <level> <pid> <from> <to>        held back); same for a removal.  Reply `pending`, or the final reply when
+dbegin <b|a> hremove <pid,…|-> <from|-> <to|->    the operation completes without reaching the persistence layer
+end                                               resume the suspended operation: its reply
 seed <pid> <ts> <quarters>                        persist.save_sample
 get <level> <pid> <now> <from> <to> <limit> <timestamps>      query strings: `-` absent, `x<hex of the UTF-8 bytes>`
 del <level> <pid> <from> <to>
@@ -20,9 +25,16 @@ hremove <pid,pid,…|-> <from|-> <to|->             history.remove_samples
 -/
 open QtVerif QtVerif.History QtVerif.Proto
 
+/-- The one operation that may be suspended at its await point while others run. -/
+inductive Pending
+  | get (fetchAtEnd : Bool)                                          -- by-timestamp query (flight 0)
+  | del (execAtEnd : Bool) (pids : List Nat) (frm to : Option Int)   -- remove_samples
+
 structure DState where
   cfg : Cfg := {}
   st : State := {}
+  fls : List Flight := []
+  pend : Option Pending := none
 
 def optInt (w : String) : Option (Option Int) :=
   if w == "-" then some none else (w.toInt?).map some
@@ -93,13 +105,14 @@ def fmtSlice (l : List (Int × Val)) : String := "ok s " ++ ";".intercalate (l.m
 def fmtByTs (hits : Nat) (l : List (Option (Int × Val))) : String :=
   s!"ok t h{hits} " ++ ";".intercalate (l.map fmtEntry)
 
-def dstep (d : DState) : List String → DState × String
+def dstep0 (d : DState) : List String → DState × String
   | ["begin", r, a, o, dl, ml, vl, al] =>
     match r.toNat?, a.toInt?, o.toInt?, dl.toNat?, ml.toNat?, vl.toNat?, al.toNat? with
     | some r, some a, some o, some dl, some ml, some vl, some al =>
-      if r > 1 then (d, "bad-op") else
-      ({ cfg := { repaired := r == 1, useCache := true, minAge := a, oldLimit := o, defLimit := dl, maxLimit := ml,
-                  viewLevel := vl, adminLevel := al }, st := {} }, "ok")
+      -- r: bit 0 = repaired, bit 1 = popAfter (candidate repair of remove_samples), bit 2 = lateDict
+      if r > 7 then (d, "bad-op") else
+      ({ cfg := { repaired := r % 2 == 1, popAfter := (r / 2) % 2 == 1, lateDict := (r / 4) % 2 == 1, useCache := true, minAge := a, oldLimit := o, defLimit := dl, maxLimit := ml,
+                  viewLevel := vl, adminLevel := al }, st := {}, fls := [], pend := none }, "ok")
     | _, _, _, _, _, _, _ => (d, "bad-op")
   | ["port", pid, t, iv, rt] =>
     match pid.toNat?, ptypeOfS t, iv.toInt?, rt.toInt? with
@@ -180,5 +193,98 @@ def dstep (d : DState) : List String → DState × String
     (d, "ok store=" ++ ";".intercalate (d.st.store.map fun s => s!"{s.oid}:{s.ts}:{s.val}") ++
         " cache=" ++ ";".intercalate (d.st.cache.map fun e => s!"{e.1.1}:{e.1.2}:" ++ (match e.2 with | none => "n" | some v => fmtVal v)))
   | _ => (d, "bad-op")
+
+def sOf (d : DState) : SState := { st := d.st, flights := d.fls }
+def withS (d : DState) (s : SState) : DState := { d with st := s.st, fls := s.flights }
+
+def fmtFlightAns (hits : Nat) : Option Ans → String
+  | some (.byTs l) => fmtByTs hits l
+  | _ => "bad-op"
+
+/-- start a by-timestamp query; `mode` b = the persistence query executes when the operation is resumed -/
+def startGet (d : DState) (mode : String) (pid : Nat) (now : Int) (tss : List Int) : DState × String :=
+  let hits := (tss.filter (fun t => (cacheGet d.st.cache pid t).isSome)).length
+  let (s1, a) := sStep d.cfg (sOf d) (.getBegin 0 pid now tss)
+  match a with
+  | some ans => (withS d s1, fmtFlightAns hits (some ans))
+  | none =>
+    let s2 := if mode == "a" then (sStep d.cfg s1 (.getFetch 0)).1 else s1
+    ({ withS d s2 with pend := some (.get (mode == "b")) }, "pending")
+
+def startDel (d : DState) (mode : String) (pids : List Nat) (frm to : Option Int) : DState × String :=
+  let (s1, _) := sStep d.cfg (sOf d) (.delBegin pids)
+  if mode == "a" then
+    let (s2, _) := sStep d.cfg s1 (.delExec pids frm to)
+    ({ withS d s2 with pend := some (.del false pids frm to) }, "pending")
+  else ({ withS d s1 with pend := some (.del true pids frm to) }, "pending")
+
+def dstep (d : DState) : List String → DState × String
+  | "gbegin" :: mode :: rest =>
+    if d.pend.isSome || !(mode == "a" || mode == "b") then (d, "bad-op") else
+    match rest with
+    | ["get", lvl, pid, now, f, t, l, tss] =>
+      match lvl.toNat?, pid.toNat?, now.toInt?, qArg f, qArg t, qArg l, qArg tss with
+      | some lvl, some pid, some now, some f, some t, some l, some tss =>
+        let q : Query := ⟨f, t, l, tss⟩
+        let whole : DState × String :=
+          let (st', r, _) := getPortHistory d.cfg d.st lvl pid now q
+          ({ d with st := st' }, match r with | .error e => fmtErr e | .ok (.slice l) => fmtSlice l | .ok (.byTs l) => fmtByTs 0 l)
+        match accessCheck lvl d.cfg.viewLevel, findPort d.st pid, parseHistArgs d.cfg now q with
+        | none, some _, .ok a =>
+          match a.timestamps with
+          | some ts => startGet d mode pid now ts
+          | none => whole
+        | _, _, _ => whole
+      | _, _, _, _, _, _, _ => (d, "bad-op")
+    | ["hbyts", pid, now, tss] =>
+      match pid.toNat?, now.toInt?, csvInts tss with
+      | some pid, some now, some tss =>
+        match findPort d.st pid with
+        | some _ => startGet d mode pid now tss
+        | none => (d, "err 404")
+      | _, _, _ => (d, "bad-op")
+    | _ => (d, "bad-op")
+  | "dbegin" :: mode :: rest =>
+    if d.pend.isSome || !(mode == "a" || mode == "b") then (d, "bad-op") else
+    match rest with
+    | ["del", lvl, pid, f, t] =>
+      match lvl.toNat?, pid.toNat?, qArg f, qArg t with
+      | some lvl, some pid, some f, some t =>
+        match accessCheck lvl d.cfg.adminLevel, findPort d.st pid, parseDelArgs ⟨f, t, none, none⟩ with
+        | none, some _, .ok (a, b) => startDel d mode [pid] (some a) (some b)
+        | _, _, _ =>
+          let (st', r) := deletePortHistory d.cfg d.st lvl pid ⟨f, t, none, none⟩
+          ({ d with st := st' }, match r with | .error e => fmtErr e | .ok () => "ok")
+      | _, _, _, _ => (d, "bad-op")
+    | ["hremove", pids, f, t] =>
+      match csvNats pids, optInt f, optInt t with
+      | some pids, some f, some t => startDel d mode pids f t
+      | _, _, _ => (d, "bad-op")
+    | _ => (d, "bad-op")
+  | ["end"] =>
+    match d.pend with
+    | none => (d, "ok")
+    | some (.get fetchAtEnd) =>
+      let s0 := sOf d
+      let s1 := if fetchAtEnd then (sStep d.cfg s0 (.getFetch 0)).1 else s0
+      let hits := match findFlight s1 0 with | some fl => fl.tss.length - fl.missed.length | none => 0
+      let (s2, a) := sStep d.cfg s1 (.getEnd 0)
+      ({ withS d s2 with pend := none }, fmtFlightAns hits a)
+    | some (.del execAtEnd pids frm to) =>
+      let s0 := sOf d
+      let s1 := if execAtEnd then (sStep d.cfg s0 (.delExec pids frm to)).1 else s0
+      ({ withS d s1 with pend := none }, "ok")
+  | ws =>
+    -- every other line is an atomic operation; the dicts it pops orphan the suspended query
+    let pops : List Nat :=
+      match ws with
+      | ["hremove", pids, _, _] => (csvNats pids).getD []
+      | ["tick", now] => match now.toInt? with | some now => popped d.cfg d.st (.tick now) | none => []
+      | _ => []
+    let (d', r) := dstep0 d ws
+    let pops := match ws with
+      | ["del", _, pid, _, _] => if r == "ok" then (match pid.toNat? with | some p => [p] | none => []) else []
+      | _ => pops
+    ({ d' with fls := orphanFlights pops d'.fls }, r)
 
 def main : IO Unit := run dstep {}
